@@ -37,16 +37,38 @@ theorem parseBye_shape {fmt : Nat} {b : Bytes} {q : Rtcp} (h : parseBye fmt b = 
       · cases h
       · injection h with h; exact ⟨_, _, h.symm⟩
 
+theorem parseBye_dom {fmt : Nat} {b : Bytes} {q : Rtcp} (h : parseBye fmt b = .ok q) :
+    ∃ ss r, q = .bye ss r ∧ ∀ x, r = some x → utf8Valid x = true := by
+  unfold parseBye at h
+  split at h
+  · cases h
+  · simp only at h
+    split at h
+    · injection h with h; exact ⟨_, _, h.symm, fun x hx => by cases hx⟩
+    · split at h
+      · cases h
+      · injection h with h
+        exact ⟨_, _, h.symm, fun x hx => by injection hx with hx; subst hx; exact utf8Valid_lossy _ _ rfl⟩
+
+theorem rd32_0_lt (a b c : UInt8) : (rd32 0 a b c).toNat < 16777216 := by
+  have := a.toNat_lt; have := b.toNat_lt; have := c.toNat_lt
+  simp only [rd32, UInt32.toNat_ofNat']
+  have h0 : (0 : UInt8).toNat = 0 := rfl
+  rw [h0]
+  have : (0 * 16777216 + a.toNat * 65536 + b.toNat * 256 + c.toNat) % 2 ^ 32 = a.toNat * 65536 + b.toNat * 256 + c.toNat := by omega
+  omega
+
 theorem parseNack_shape {b : Bytes} {q : Rtcp} (h : parseNack b = .ok q) : ∃ s m l, q = .nack s m l := by
   unfold parseNack at h
   split at h
   · injection h with h; exact ⟨_, _, _, h.symm⟩
   · cases h
 
-theorem parseTwcc_shape {b : Bytes} {q : Rtcp} (h : parseTwcc b = .ok q) : ∃ s m b c r f pl, q = .twcc s m b c r f pl := by
+theorem parseTwcc_shape {b : Bytes} {q : Rtcp} (h : parseTwcc b = .ok q) :
+    ∃ s m b c r f pl, q = .twcc s m b c r f pl ∧ r.toNat < 16777216 := by
   unfold parseTwcc at h
   split at h
-  · injection h with h; exact ⟨_, _, _, _, _, _, _, h.symm⟩
+  · injection h with h; exact ⟨_, _, _, _, _, _, _, h.symm, rd32_0_lt _ _ _⟩
   · cases h
 
 theorem parsePli_shape {b : Bytes} {q : Rtcp} (h : parsePli b = .ok q) : ∃ s m, q = .pli s m := by
@@ -61,15 +83,19 @@ theorem parseFir_shape {b : Bytes} {q : Rtcp} (h : parseFir b = .ok q) : ∃ s r
   · injection h with h; exact ⟨_, _, h.symm⟩
   · cases h
 
-theorem parseRemb_dom {b : Bytes} {q : Rtcp} (h : parseRemb b = .ok q) : ∃ s br ss, q = .remb s br ss ∧ br < 2 ^ 64 := by
+theorem parseRemb_dom {b : Bytes} {q : Rtcp} (h : parseRemb b = .ok q) :
+    ∃ s br ss, q = .remb s br ss ∧ br < 2 ^ 64 ∧ ∃ m e, m < 2 ^ 18 ∧ e < 64 ∧ br = m * 2 ^ e % 2 ^ 64 := by
   unfold parseRemb at h
   split at h
-  · split at h
+  · next s0 s1 s2 s3 _ _ _ _ r e m b n x y z rest =>
+    split at h
     · cases h
     · split at h
       · cases h
       · injection h with h
-        exact ⟨_, _, _, h.symm, Nat.mod_lt _ (by decide)⟩
+        refine ⟨_, _, _, h.symm, Nat.mod_lt _ (by decide), (x.toNat % 4) * 65536 + y.toNat * 256 + z.toNat, x.toNat / 4, ?_, ?_, rfl⟩
+        · have := y.toNat_lt; have := z.toNat_lt; omega
+        · have := x.toNat_lt; omega
   · cases h
 
 theorem sdesItems_dom : ∀ (n : Nat) (off : Nat) (bs : Bytes) (its : List SdesItem) (o : Nat) (r : Bytes), bs.length = n →
@@ -155,7 +181,7 @@ theorem parseOne_dom {pt fmt : Nat} {body : Bytes} {q : Rtcp} (h : parseOne pt f
       · rw [if_pos h3] at h; exact parseSdes_dom (map_some_inv h)
       · rw [if_neg h3] at h
         by_cases h4 : pt = c15RtcpBye
-        · rw [if_pos h4] at h; obtain ⟨_, _, rfl⟩ := parseBye_shape (map_some_inv h); trivial
+        · rw [if_pos h4] at h; obtain ⟨_, _, rfl, hv⟩ := parseBye_dom (map_some_inv h); exact hv
         · rw [if_neg h4] at h
           by_cases h5 : pt = c15RtcpRtpfb
           · rw [if_pos h5] at h
@@ -163,7 +189,7 @@ theorem parseOne_dom {pt fmt : Nat} {body : Bytes} {q : Rtcp} (h : parseOne pt f
             · rw [if_pos f1] at h; obtain ⟨_, _, _, rfl⟩ := parseNack_shape (map_some_inv h); trivial
             · rw [if_neg f1] at h
               by_cases f2 : fmt = c15FmtTwcc
-              · rw [if_pos f2] at h; obtain ⟨_, _, _, _, _, _, _, rfl⟩ := parseTwcc_shape (map_some_inv h); trivial
+              · rw [if_pos f2] at h; obtain ⟨_, _, _, _, _, _, _, rfl, _⟩ := parseTwcc_shape (map_some_inv h); trivial
               · rw [if_neg f2] at h; cases h
           · rw [if_neg h5] at h
             by_cases h6 : pt = c15RtcpPsfb
@@ -175,7 +201,7 @@ theorem parseOne_dom {pt fmt : Nat} {body : Bytes} {q : Rtcp} (h : parseOne pt f
                 · rw [if_pos f2] at h; obtain ⟨_, _, rfl⟩ := parseFir_shape (map_some_inv h); trivial
                 · rw [if_neg f2] at h
                   by_cases f3 : fmt = c15FmtApp
-                  · rw [if_pos f3] at h; obtain ⟨_, _, _, rfl, hb⟩ := parseRemb_dom (map_some_inv h); exact hb
+                  · rw [if_pos f3] at h; obtain ⟨_, _, _, rfl, hb, _⟩ := parseRemb_dom (map_some_inv h); exact hb
                   · rw [if_neg f3] at h; cases h
             · rw [if_neg h6] at h; cases h
 
@@ -267,13 +293,16 @@ theorem parseBlocks_range : ∀ (n : Nat) (bs : Bytes) (bl : List ReportBlock), 
           simp only [Except.ok.injEq] at h; subst h
           simp only [List.map_cons, parseBlock_range hb, ih _ _ hr]
 
-/-- the fields of a PARSED packet that the canonical form could change are already canonical for every
-type except the three lossy ones (NACK order, BYE reason, REMB bitrate) -/
+/-- What holds of a PARSED packet with respect to the canonical form: it is a fixed point for SR, RR, SDES,
+PLI, FIR, TWCC; a NACK list is a fixed point as a set (the wire enumerates it in packed order); a BYE is a
+fixed point unless `from_utf8_lossy` expanded the reason beyond the 255 bytes the length octet can count;
+a REMB bitrate is `mantissa · 2^exp mod 2^64` of an 18-bit mantissa and a 6-bit exponent and a fixed point
+unless that product overflowed the `u64`. -/
 def CanonFixed (p : Rtcp) : Prop :=
   match p with
-  | .nack .. => True
-  | .bye .. => True
-  | .remb .. => True
+  | .nack _ _ lost => ∀ x, x ∈ unpackNack (packNack lost) ↔ x ∈ lost
+  | .bye _ r => (∀ x, r = some x → x.length ≤ 255) → canon p = p
+  | .remb _ br _ => ∃ m e, m < 2 ^ 18 ∧ e < 64 ∧ br = m * 2 ^ e % 2 ^ 64 ∧ (m * 2 ^ e < 2 ^ 64 → canon p = p)
   | p => canon p = p
 
 theorem parseOne_canonFixed {pt fmt : Nat} {body : Bytes} {q : Rtcp} (h : parseOne pt fmt body = .ok (some q)) : CanonFixed q := by
@@ -307,15 +336,26 @@ theorem parseOne_canonFixed {pt fmt : Nat} {body : Bytes} {q : Rtcp} (h : parseO
         · injection h' with h'; subst h'; rfl
       · rw [if_neg h3] at h
         by_cases h4 : pt = c15RtcpBye
-        · rw [if_pos h4] at h; obtain ⟨_, _, rfl⟩ := parseBye_shape (map_some_inv h); trivial
+        · rw [if_pos h4] at h
+          obtain ⟨ss, r, rfl⟩ := parseBye_shape (map_some_inv h)
+          intro hlen
+          cases r with
+          | none => rfl
+          | some x =>
+            have := hlen x rfl
+            simp only [canon, byeCanonReason, c15ByeMaxReason_eq]
+            rw [Nat.min_eq_left this, byeCut_full, List.take_length]
         · rw [if_neg h4] at h
           by_cases h5 : pt = c15RtcpRtpfb
           · rw [if_pos h5] at h
             by_cases f1 : fmt = c15FmtNack
-            · rw [if_pos f1] at h; obtain ⟨_, _, _, rfl⟩ := parseNack_shape (map_some_inv h); trivial
+            · rw [if_pos f1] at h; obtain ⟨_, _, lost, rfl⟩ := parseNack_shape (map_some_inv h)
+              intro x; unfold packNack; rw [mem_unpack_packSorted x _ _ rfl, mem_sortDedup]
             · rw [if_neg f1] at h
               by_cases f2 : fmt = c15FmtTwcc
-              · rw [if_pos f2] at h; obtain ⟨_, _, _, _, _, _, _, rfl⟩ := parseTwcc_shape (map_some_inv h); rfl
+              · rw [if_pos f2] at h; obtain ⟨_, _, _, _, r, _, _, rfl, hr⟩ := parseTwcc_shape (map_some_inv h)
+                have : UInt32.ofNat (r.toNat % 16777216) = r := by rw [Nat.mod_eq_of_lt hr]; simp
+                simp only [CanonFixed, canon, this]
               · rw [if_neg f2] at h; cases h
           · rw [if_neg h5] at h
             by_cases h6 : pt = c15RtcpPsfb
@@ -327,7 +367,9 @@ theorem parseOne_canonFixed {pt fmt : Nat} {body : Bytes} {q : Rtcp} (h : parseO
                 · rw [if_pos f2] at h; obtain ⟨_, _, rfl⟩ := parseFir_shape (map_some_inv h); rfl
                 · rw [if_neg f2] at h
                   by_cases f3 : fmt = c15FmtApp
-                  · rw [if_pos f3] at h; obtain ⟨_, _, _, rfl, _⟩ := parseRemb_dom (map_some_inv h); trivial
+                  · rw [if_pos f3] at h; obtain ⟨_, _, _, rfl, _, m, e, hm, he, rfl⟩ := parseRemb_dom (map_some_inv h)
+                    refine ⟨m, e, hm, he, rfl, fun hv => ?_⟩
+                    simp only [canon, Nat.mod_eq_of_lt hv, rembCanon_wire m e (by omega) hv]
                   · rw [if_neg f3] at h; cases h
             · rw [if_neg h6] at h; cases h
 
